@@ -595,4 +595,41 @@ theorem runSwap_sound {ctx : Ctx} {op : Operation} {p : Path} (hsw : SupportedWi
           (by rw [hla']; exact authorised_transfer hstab hn hauth) o ho
         exact ⟨m, List.mem_cons_of_mem _ hm, r⟩
 
+/-- **soundness across node replacements, per call**: the `i`-th answer of the run was produced by the
+`i`-th call of `next`, which saw `nodes[i]` — and the item is authorised **on that node** (directly, or
+through the cache whose content was authorised for the same — stable — endpoint) -/
+theorem runSwap_sound_at {ctx : Ctx} {op : Operation} {p : Path} (hsw : SupportedWildcard op p)
+    (all : List Node) (hstab : Stable all)
+    (nodes : List Node) (hsub : ∀ n ∈ nodes, n ∈ all) (st : St) (hst : WildSt p st)
+    (hla : ∀ n ∈ all, CacheOk ctx op n st.lastAuthorized) :
+    ∀ (i : Nat) (o : Out), (runSwap ctx op nodes st)[i]? = some o → ∃ n, nodes[i]? = some n ∧ ∃ ep cl lf arr,
+      o = Out.item ep cl lf true arr ∧ Authorised ctx op n (ep, cl, lf) ∧ PathMatches p ep cl lf := by
+  induction nodes generalizing st with
+  | nil => intro i o ho; simp [runSwap] at ho
+  | cons n rest ih =>
+    intro i o ho
+    have hn : n ∈ all := hsub n (by simp)
+    unfold runSwap at ho
+    cases hnx : next ctx op n st with
+    | none => simp [hnx] at ho
+    | some r =>
+      obtain ⟨o1, st'⟩ := r
+      simp only [hnx] at ho
+      obtain ⟨ep, cl, lf, arr, hy, ho1, hst', hla'⟩ := next_wildSt hsw hst hnx
+      have hyo := nextForPath_yield hy
+      have hauth := yieldOk_authorised (hla n hn) hyo
+      have hpm : PathMatches p ep cl lf := by
+        obtain ⟨_, _, _, _, _, _, _, _, _, m1, m2, m3, _⟩ := hyo
+        exact ⟨m1, m2, m3⟩
+      cases i with
+      | zero =>
+        simp only [List.getElem?_cons_zero, Option.some.injEq] at ho
+        subst ho
+        exact ⟨n, by simp, ep, cl, lf, arr, ho1, hauth, hpm⟩
+      | succ j =>
+        simp only [List.getElem?_cons_succ] at ho
+        obtain ⟨m, hm, r⟩ := ih (fun m hm => hsub m (List.mem_cons_of_mem _ hm)) st' hst'
+          (by rw [hla']; exact authorised_transfer hstab hn hauth) j o ho
+        exact ⟨m, by simpa using hm, r⟩
+
 end C06
